@@ -73,6 +73,7 @@ class VecDomain(ParamsMixin, Domain):
     float_mode = 'real'
     smt_logic = None
     inline = {'sumsq_'}
+    spec_names = ('zerov',)       # names the contract language resolves itself (not locals of the code)
 
     def __init__(self, repo):
         Domain.__init__(self, repo)
